@@ -384,6 +384,28 @@ def diff_states(a, b):
 # ---------------------------------------------------------------------------
 # property oracle, written from the property text; it looks at the implementation only
 
+# ETSI TS 103 300-3 V2.3.1 Table 15 (cluster membership parameters, seconds) and Table 14, written here
+# independently of vam_constants.py: "specified durations" means these values
+SPEC_SECONDS = {"TIME_CLUSTER_UNIQUENESS_THRESHOLD": 30, "TIME_CLUSTER_BREAKUP_WARNING": 3,
+                "TIME_CLUSTER_JOIN_NOTIFICATION": 3, "TIME_CLUSTER_JOIN_SUCCESS": Fraction(1, 2),
+                "TIME_CLUSTER_CONTINUITY": 2, "TIME_CLUSTER_LEAVE_NOTIFICATION": 1}
+
+
+def spec_constant_failures(K):
+    bad = []
+    for name, want in SPEC_SECONDS.items():
+        got = getattr(K, name, None)
+        if got is None or Fraction(got) != Fraction(want):
+            bad.append(("timing_constant_differs_from_standard",
+                        f"vam_constants.{name} = {got!r} s, TS 103 300-3 Table 15 specifies {float(want)} s"))
+    return bad
+
+
+def quarter_steps(total, elapsed):
+    """DeltaTimeQuarterSecond for the time remaining of a phase of `total` ticks, `elapsed` ticks after it began"""
+    return max(1, min(127, max(0, total - elapsed) * 4 // TPS))
+
+
 class Oracle:
     """Follows one manager through its events and checks the clauses of C18 on what the manager
     shows (state name, containers, transmit flag, cluster id, and the attributes named by the
@@ -513,6 +535,9 @@ class Oracle:
                 bad.append(("join_notification_duration", f"join intention towards cluster {cid} not offered for "
                             f"transmission {now - t0} ticks after initiate_join"))
                 self.join_n = None
+            elif o["op"][2] != quarter_steps(self.TJN, now - t0) and t0 != 0:
+                bad.append(("notification_time_field", f"joinTime {o['op'][2]} announced {now - t0} ticks after "
+                            f"initiate_join, remaining time is {quarter_steps(self.TJN, now - t0)} quarter seconds"))
         elif self.waiting is not None:
             cid, since = self.waiting
             if aborted or o["vst"] == 3:
@@ -560,6 +585,9 @@ class Oracle:
                 bad.append(("breakup_warning_duration", f"break-up indication not offered for transmission "
                             f"{now - t0} ticks after trigger_breakup_cluster"))
                 self.breakup_n = None
+            elif o["op"][2] != quarter_steps(self.TBW, now - t0):
+                bad.append(("notification_time_field", f"breakupTime {o['op'][2]} announced {now - t0} ticks after "
+                            f"the break-up began, remaining time is {quarter_steps(self.TBW, now - t0)} quarter seconds"))
         if k == "breakup" and ret == 1:
             self.breakup_n = (ev[1], now)
             if not (o["vst"] == 2 and o["op"][0] == 3 and o["op"][1] == ev[1]):
